@@ -2,8 +2,8 @@
 // returns exactly the records a simple in-memory keyed table would return.
 //
 // E-seq: explicit-state breadth-first search over operation histories. A
-// state is reached by replaying its shortest history on a fresh SQLite file
-// through one fresh resource handle; every event of the alphabet is then
+// state is reached by replaying its shortest history on an emptied SQLite
+// database (one file per worker, table dropped) through one new resource handle; every event of the alphabet is then
 // applied through the real entry points and its answer, and the table the
 // store reports afterwards, are compared with a Go reference model (a map of
 // structs). States are deduplicated on the raw table contents plus the handle
@@ -187,7 +187,7 @@ func judge(t Table, e Event, o Outcome, after []string, afterExists bool, afterE
 			mustSucceed = false
 		case !failed:
 			if !multisetEq(o.Rows, want) {
-				add("read:wrong-rows:"+sig(list), fmt.Sprintf("%s on %s returned the wrong records", e, t), strings.Join(o.Rows, "; "), strings.Join(want, "; "))
+				add("read:wrong-rows", fmt.Sprintf("%s on %s returned the wrong records", e, t), strings.Join(o.Rows, "; "), strings.Join(want, "; "))
 			} else if !sortedBy(t, o.Rows, sortSpecs[e.Sort]) {
 				add("read:wrong-order", fmt.Sprintf("%s on %s is not in the requested order", e, t), strings.Join(o.Rows, "; "), "sorted by "+strings.Join(sortSpecs[e.Sort], ","))
 			}
@@ -210,7 +210,7 @@ func judge(t Table, e Event, o Outcome, after []string, afterExists bool, afterE
 			}
 
 			if o.Count != int64(len(sel)) {
-				add("delete:wrong-count:"+sig(list), fmt.Sprintf("%s on %s reported the wrong number of deleted records", e, t), fmt.Sprint(o.Count), fmt.Sprint(len(sel)))
+				add("delete:wrong-count", fmt.Sprintf("%s on %s reported the wrong number of deleted records", e, t), fmt.Sprint(o.Count), fmt.Sprint(len(sel)))
 			}
 		}
 	case "update":
@@ -268,7 +268,7 @@ func judge(t Table, e Event, o Outcome, after []string, afterExists bool, afterE
 	}
 
 	if failed && mustSucceed {
-		add(e.Op+":unexpected-error:"+sig(list), fmt.Sprintf("%s on %s failed although the model can carry it out", e, t), o.Err, "success")
+		add(e.Op+":unexpected-error", fmt.Sprintf("%s on %s failed although the model can carry it out", e, t), o.Err, "success")
 
 		next = t.clone()
 		if e.Op == "create" || e.Op == "createif" {
@@ -287,14 +287,22 @@ func judge(t Table, e Event, o Outcome, after []string, afterExists bool, afterE
 // the model's next table.
 func checkAfter(next Table, e Event, fs []finding, after []string, afterExists bool, afterErr error) (Table, []finding) {
 	list := e.atoms()
-	unknown, _, _ := classify(list)
+	unknown, hasNil, _ := classify(list)
 
-	cell := e.Op + ":wrong-table:" + sig(list)
-	if unknown {
+	cell := e.Op + ":wrong-table"
+
+	switch {
+	case unknown:
 		cell = unknownCell(list)
+	case hasNil:
+		// One root cause (the position test that decides between " where "
+		// and " and " counts skipped nil filters) whatever the other operator.
+		cell = "filter:nil:" + e.Op + ":wrong-table"
 	}
 
 	switch {
+	case len(fs) > 0:
+		// one finding per execution: the answer itself was already wrong
 	case afterErr != nil:
 		fs = append(fs, finding{e.Op + ":read-all-failed", fmt.Sprintf("after %s the store cannot be read: %v", e, afterErr), afterErr.Error(), "readable"})
 	case afterExists != next.Exists:
@@ -353,7 +361,7 @@ func step(hist []Event, wantKey string, t Table, e Event) result {
 	return result{key: s.dump(), next: next, findings: fs, trace: trace}
 }
 
-func alphabet(variants int, lists [][]int) []Event {
+func alphabet(variants int, lists [][]int, fullUpdates bool) []Event {
 	var ev []Event
 
 	ev = append(ev, Event{Op: "createif"}, Event{Op: "create"})
@@ -377,6 +385,13 @@ func alphabet(variants int, lists [][]int) []Event {
 
 		for k := range keys {
 			for v := 0; v < variants; v++ {
+				// Quick tier: two-filter updates write only records a0 and b1
+				// (one new-key candidate of each variant); every other
+				// combination is in the thorough tier.
+				if !fullUpdates && len(l) == 2 && !(k == 0 && v == 0) && !(k == 1 && v == 1) {
+					continue
+				}
+
 				ev = append(ev, Event{Op: "update", Key: k, Var: v, Filters: l})
 			}
 		}
@@ -417,7 +432,7 @@ func main() {
 	seqLen := r.Pick(3, 4)
 
 	r.Assume(
-		"SQLite (modernc.org/sqlite, fresh file per execution) is the backend; PostgreSQL is not executed",
+		"SQLite (modernc.org/sqlite, synchronous=OFF) is the backend: one database file per worker opened once through resources.Open; every execution starts by dropping the table and building a new handle value from the pristine one; PostgreSQL is not executed",
 		"every operation starts with Begin() and builds its filters from the same handle, as the callers in the repository do",
 		"results are compared as multisets (plus the requested order when Sort is used); a nil and an empty json list are the same list",
 		"states are merged on raw table contents + handle fields (Err, OrderList, Columns); the un-merged second pass covers state outside that key for short histories",
@@ -431,13 +446,14 @@ func main() {
 
 		atomList = atoms(true) // a superset: quick indexes stay valid
 		replay(r, w)
+		closeAll()
 		r.Finish()
 	}
 
 	lists := filterLists(len(atomList), 2)
-	events := alphabet(variants, lists)
+	events := alphabet(variants, lists, r.Thorough())
 
-	r.Rule(fmt.Sprintf("BFS to fixpoint over histories of {CreateIf, Create, Insert, Read, Delete, Update, ReadOne, DeleteOne, UpdateOne} on a record type with string/int/bool/uuid/[]string/json.RawMessage fields: %d keys x %d variants, every list of 0..2 filters over %d atoms (Equals/NotEquals/LessThan/GreaterThan on string, int, bool, uuid columns, a non-existent column, an explicit nil), 2 sort orders; %d events per state. Each (state,event) is executed on a fresh SQLite file after replaying the state's shortest history and compared with a map-of-structs model. Then every history of length <=%d over a reduced alphabet on one handle without merging. distinct = (state,event) pairs (pass 1) and histories (pass 2) whose table holds at least one record or that insert one.", len(keys), variants, len(atomList), len(events), seqLen))
+	r.Rule(fmt.Sprintf("BFS to fixpoint over histories of {CreateIf, Create, Insert, Read, Delete, Update, ReadOne, DeleteOne, UpdateOne} on a record type with string/int/bool/uuid/[]string/json.RawMessage fields: %d keys x %d variants, every list of 0..2 filters over %d atoms (Equals/NotEquals/LessThan/GreaterThan on string, int, bool, uuid columns, a non-existent column, an explicit nil), 2 sort orders (quick tier: two-filter updates write 2 of the records); %d events per state. Each (state,event) is executed on an emptied SQLite database through a new resource handle after replaying the state's shortest history and compared with a map-of-structs model. Then every history of length <=%d over a reduced alphabet on one handle without merging. distinct = (state,event) pairs (pass 1) and histories (pass 2) whose table holds at least one record or that insert one.", len(keys), variants, len(atomList), len(events), seqLen))
 
 	// ---- pass 1: BFS with state merging, to the fixpoint -----------------
 	init := step(nil, "", Table{}, Event{Op: "read"})
@@ -485,7 +501,11 @@ func main() {
 
 			outcomes[e.Op+boolText(len(res.findings) > 0, ":violating", ":agrees")]++
 
-			if i%9973 == 11 || (len(st.table.Rows) == 2 && len(e.Filters) == 2 && i%997 == 3) {
+			if _, hasNil, _ := classify(e.atoms()); hasNil && strings.Contains(res.trace[len(res.trace)-1], "syntax error") {
+				outcomes["nil-filter:sql-syntax-error(accepted)"]++
+			}
+
+			if sampleHere(transitions, len(st.table.Rows), e) {
 				r.Sample(map[string]any{"history": texts(st.hist), "event": e.String(), "result": res.trace[len(res.trace)-1]})
 			}
 
@@ -545,6 +565,9 @@ func main() {
 	r.Set("unmerged_alphabet", texts(small))
 	r.Set("traces_validated_against_impl", transitions+seqs)
 	r.Set("outcomes", outcomes)
+	r.Set("sqlite_files_opened", opened.Load())
+	r.Set("sqlite_files_given_up", recycled.Load())
+	closeAll()
 	r.Finish()
 }
 
@@ -632,8 +655,6 @@ func replay(r *report.R, w witness) {
 		report.Fatal("%v", err)
 	}
 
-	defer s.close()
-
 	// The model is rebuilt by judging the history itself.
 	t := Table{Rows: map[string]Rec{}}
 
@@ -658,6 +679,25 @@ func replay(r *report.R, w witness) {
 	for _, l := range trace {
 		fmt.Println("replay:", l)
 	}
+
+	s.close()
+}
+
+// sampleHere picks a handful of written-out transitions of different shapes
+// (by position in the deterministic enumeration, not at random).
+var sampled = map[string]bool{}
+
+func sampleHere(n, rows int, e Event) bool {
+	shape := fmt.Sprintf("%s/%d/%d", e.Op, len(e.Filters), rows)
+
+	want := map[string]bool{"insert/0/1": true, "read/2/2": true, "delete/1/3": true, "update/2/2": true, "readone/0/1": true, "update/1/3": true}
+	if !want[shape] || sampled[shape] || n%7 != 3 {
+		return false
+	}
+
+	sampled[shape] = true
+
+	return true
 }
 
 func texts(h []Event) []string {
